@@ -111,8 +111,10 @@ simulation.
 """
 
 
-@dataclass
+@dataclass(eq=False)
 class SimGroup:
+    # Groups are compared by identity: two distinct groups with the same
+    # parent (sibling groups) are different groups.
     parent: SimGroup | None
 
     @property
